@@ -2,19 +2,19 @@ SPECIFICATION Spec
 CONSTANTS
   Procs = {1, 2}
   ClientOf <- C12
-  ModeOf <- MWT
+  ModeOf <- MWW
   K = 3
   Maj = 2
   MaxCalls = 1
-  MaxIoErr = 1
+  MaxIoErr = 0
   MaxAcqErr = 0
   MaxExtDel = 0
   MaxExpire = 0
-  MaxDisc = 0
+  MaxDisc = 1
   MaxSrcCancel = 0
   NoLoop = TRUE
   AsyncPush = FALSE
-  FixCancelFirst = FALSE
+  FixCancelFirst = TRUE
   FixRetryTimer = TRUE
   FixLocalHandoff = TRUE
   BugExtendNoToken = FALSE
@@ -25,7 +25,7 @@ CONSTANTS
   DiscParkedOnly = FALSE
   Record = FALSE
   GenLen = 0
-INVARIANTS DoneBeforeRelease
+INVARIANTS TypeOK MutualExclusion DoneBeforeRelease NoLostWakeup CountersOK NoStaleKeys ExtendsOwnKeyOnly CancelAtMajorityLoss LostCounterOK
 
 
 CHECK_DEADLOCK FALSE
